@@ -943,9 +943,9 @@ func (h *cx6Harness) Project() (any, error) {
 		"liveSet":   live,
 		"stopped":   h.stopped,
 	}
-	// (1) FAILED carries the text of the error Reload returned
+	// (1) FAILED carries the text of the error Reload returned (possibly with more around it)
 	if st := h.cl.status; st != nil && len(h.cl.statuses) > 0 && st.GetStatus() == protobufs.RemoteConfigStatuses_RemoteConfigStatuses_FAILED &&
-		len(h.cfg.errs) == 1 && h.cfg.errs[0] != nil && st.GetErrorMessage() != h.cfg.errs[0].Error() {
+		len(h.cfg.errs) == 1 && h.cfg.errs[0] != nil && !strings.Contains(st.GetErrorMessage(), h.cfg.errs[0].Error()) {
 		out["errorText"] = fmt.Sprintf("status says %q, Reload said %q", st.GetErrorMessage(), h.cfg.errs[0].Error())
 	}
 	if h.stopped != h.cl.stopped {
